@@ -762,8 +762,13 @@ where
     P: AsRef<Path>,
 {
     let file = log::open(utils::hintfile_name(&path, fileid))?;
+    let datafile_len = fs::metadata(utils::datafile_name(&path, fileid))?.len();
     let mut hintfile_iter = LogIterator::new(file)?;
     while let Some((_, entry)) = hintfile_iter.next::<HintFileEntry>()? {
+        // The data file can be shorter than what its hints describe after a power loss
+        if entry.pos + entry.len > datafile_len {
+            break;
+        }
         let keydir_entry = KeyDirEntry {
             fileid,
             len: entry.len,
